@@ -30,7 +30,9 @@ TAMPERS = ["truncate", "append", "rewrite_same", "rewrite", "replace_rename"]
 
 
 def generate(prop, rng):
-    pool = [b for b in gen.content_pool(rng, n=rng.randint(3, 6)) if b != b""] or [b"x"]
+    pool = gen.content_pool(rng, n=rng.randint(3, 6))
+    if b"" not in pool and rng.random() < 0.4:
+        pool.append(b"")
     nobj = len(pool)
     tree = {}
     for i in rng.sample(range(nobj), rng.randint(1, min(3, nobj))):
@@ -70,8 +72,6 @@ def valid(sc):
     n = len(sc["contents"])
     if not sc["tree"] or any(ci >= n for ci in sc["tree"].values()):
         return False
-    if any(gen.dec(c) == b"" for c in sc["contents"]):
-        return False
     labs = {f"c{i}" for i in range(n)} | {"T"}
     for op in sc["ops"]:
         if "obj" in op and op["obj"] not in labs:
@@ -100,7 +100,7 @@ def simplify(sc):
             yield c
     for i, cont in enumerate(sc["contents"]):
         want = gen.enc(b"c%d" % i)
-        if cont != want:
+        if cont != want and gen.dec(cont) != b"":
             c = copy.deepcopy(sc)
             c["contents"][i] = want
             yield c
@@ -211,11 +211,11 @@ def execute(sc, ctx):
             elif how == "append":
                 new = cur + b"+"
             elif how == "rewrite_same":
-                new = bytes((cur[0] ^ 1,)) + cur[1:]
+                new = (bytes((cur[0] ^ 1,)) + cur[1:]) if cur else b"?"
             elif how == "rewrite":
                 new = b"tampered %d" % n
             else:
-                new = bytes((cur[0] ^ 2,)) + cur[1:]
+                new = (bytes((cur[0] ^ 2,)) + cur[1:]) if cur else b"??"
             if new == good[o]:
                 new = new + b"#"
             if how == "replace_rename":
